@@ -424,7 +424,7 @@ SETTINGS = [dict(sigalg=sa, reg=reg, allow_none=an, skew=sk, allow_missing_kid=a
 
 
 def base_alg(setting):
-    sa = setting["sigalg"] if setting["reg"] == "dynamic" else None
+    sa = setting["sigalg"]
     if sa == "ES256":
         return "ES256", "iss_ec", "e1"
     if sa == "HS256":
